@@ -8,6 +8,13 @@
 (* and the shift each candidate conditioning column would induce (IcdfStep on measured     *)
 (* values: the step must have read column cond[i]).                                       *)
 (*                                                                                        *)
+(* Histories (RosenblattHist.tla): the second contour of a model that was modified through *)
+(* an inner object between two identical requests is an ordinary contour record of the      *)
+(* CURRENT model.  Its radii are measured twice: r through the cdfs of the model object      *)
+(* itself (array-valued given), rfresh through the cdfs of a model constructed afresh from  *)
+(* the current parameters (fresh = TRUE announces the second map); both are "the model's    *)
+(* own cdfs" of the property, the second owes nothing to what earlier calls left behind.    *)
+(*                                                                                        *)
 (* Scales: radii, beta: 10^7; unit directions: 10^4; angles: micro-degrees; shifts 10^5.  *)
 EXTENDS RosenblattOps, Json, IOUtils, TLC
 
@@ -42,7 +49,9 @@ ContourClauses(r) ==
   ELSE <<
     <<"Count", r.shapeok /\ N(r) = r.npoints /\ Len(r.dirs) = r.npoints>>,
     <<"BetaIsRef", Within(r.beta, r.betaref, 2)>>,
-    <<"RadiusIsBeta", \A k \in 1..N(r) : Within(r.r[k], r.betaref, RadiusTol(r.betaref))>>,
+    <<"RadiusIsBeta", /\ \A k \in 1..N(r) : Within(r.r[k], r.betaref, RadiusTol(r.betaref))
+                      /\ r.fresh => Len(r.rfresh) = N(r)
+                      /\ \A k \in 1..Len(r.rfresh) : Within(r.rfresh[k], r.betaref, RadiusTol(r.betaref))>>,
     <<"DirectionsDistinct", Directed(r) => Cardinality({r.dirs[k] : k \in 1..Len(r.dirs)}) = Len(r.dirs)>>,
     <<"AnglesEquallySpaced", r.ndim = 2 /\ Directed(r) =>
          /\ Len(r.ang) = r.npoints
